@@ -125,6 +125,8 @@ inductive Resp
   | served
   /-- UnprivilegedRequestException: 401 + INSUFFICIENT_PRIVILEGES -/
   | err401
+  /-- `POST /pairings` list served: the answer lists `n` pairings -/
+  | listed (n : Nat)
 deriving DecidableEq, Repr
 
 structure Out where
@@ -224,6 +226,9 @@ inductive Op
   | verify (c : Nat) (body : Bytes)
   /-- a `GET /accessories` on connection `c` (the probe for "protected endpoints are served") -/
   | get (c : Nat)
+  /-- a `POST /pairings` list request on connection `c` (shows *as which controller* the connection
+      is authorised: `handle_pairings` consults `is_admin(self.client_uuid)`) -/
+  | list (c : Nat)
 deriving Repr
 
 def setConn (f : Nat → Conn) (c : Nat) (v : Conn) : Nat → Conn := fun a => if a = c then v else f a
@@ -239,6 +244,14 @@ def step (C : Crypto) (s : Sys) : Op → Sys × Option Out
   | .get c =>
     -- `handle_accessories`: `if not self.is_encrypted: raise UnprivilegedRequestException`
     ({ s with clock := s.clock + 1 }, some ⟨if (s.conns c).verified then .served else .err401, none⟩)
+  | .list c =>
+    -- `handle_pairings`: `assert self.client_uuid is not None`; admin check; `_handle_list_pairings`
+    ({ s with clock := s.clock + 1 },
+     some ⟨match (s.conns c).client with
+           | none => .err500
+           | some me =>
+             if (s.conns c).verified = false ∨ isAdmin s.pairings me = false then authErr 2
+             else .listed s.pairings.length, none⟩)
 
 def run (C : Crypto) : Sys → List Op → Sys
   | s, [] => s
